@@ -604,6 +604,21 @@ def r8_request_and_terminator(ctx):
 from ..through_time import make_rule as _mk_tt
 _through_time = _mk_tt("C01")
 
+def _joined_chunks(ctx):
+    """chunks read lazily are put together again with np.concatenate: every chunk's tables are shifted by the cumulative size of the chunks before it"""
+    from .c04 import r2_aligned_stores
+    r2_aligned_stores(ctx)
+
+
+def _padded_gather_in_bounds(ctx):
+    """text columns are gathered into a padded matrix by index arithmetic that may run past the end of the chunk for a short LAST row: the indices are clamped to the
+    last valid position (data.size - 1), otherwise a well-formed file fails for the chunk sizes that put such a row last"""
+    rp = ctx.index.func("bionumpy.io.file_buffers", "move_intervals_to_right_padded_array")
+    idx = [n for n in body_walk(rp.node) if isinstance(n, ast.Assign) and u(n.targets[0]) == "indices"]
+    ok = len(idx) == 1 and sym.same(idx[0].value, f"np.minimum({rp.params[1]}[..., None] + np.arange(max_chars), {rp.params[0]}.size - 1)")
+    ctx.ob(rp.where, "gather indices of the padded text matrix are clamped to the last byte of the chunk", ok, u(idx[0]) if idx else "", key="C01-R9|padded-gather-clamp")
+
+
 RULES = [
     ("C01-R7", r7_crlf_sniff),
     ("C01-R6", r6_cross_chunk_scan),
@@ -614,4 +629,6 @@ RULES = [
     ("C01-R5", r5_stream_termination),
     ("C01-R8", r8_request_and_terminator),
     ("C01-T1", _through_time),
+    ("C01-R9", _padded_gather_in_bounds),
+    ("C01-R10", _joined_chunks),
 ]
